@@ -1,0 +1,46 @@
+//! Verification-only seam (compiled only with `--cfg espada_verif`).
+//!
+//! Lets a simulator choose the hash-iteration order of a `HandRange`'s backing
+//! map. With seed 0 (the default) hashing is bit-for-bit `FxBuildHasher`.
+
+use fxhash::FxHasher;
+use std::cell::Cell;
+use std::hash::{BuildHasher, Hasher};
+
+thread_local! {
+    static HASH_SEED: Cell<u64> = Cell::new(0);
+}
+
+/// Seed picked up by every `SimBuildHasher` created on this thread afterwards.
+pub fn set_hash_seed(seed: u64) {
+    HASH_SEED.with(|s| s.set(seed));
+}
+
+pub fn hash_seed() -> u64 {
+    HASH_SEED.with(|s| s.get())
+}
+
+#[derive(Debug, Clone, Copy)]
+pub struct SimBuildHasher {
+    seed: u64,
+}
+
+impl Default for SimBuildHasher {
+    fn default() -> Self {
+        SimBuildHasher { seed: hash_seed() }
+    }
+}
+
+impl BuildHasher for SimBuildHasher {
+    type Hasher = FxHasher;
+
+    fn build_hasher(&self) -> FxHasher {
+        let mut hasher = FxHasher::default();
+
+        if self.seed != 0 {
+            hasher.write_u64(self.seed);
+        }
+
+        hasher
+    }
+}
